@@ -56,8 +56,112 @@ fn vault_part(quick: u64, thorough: u64) -> PlanPart {
     PlanPart { scen: scen::<scen::vault::VaultScen>(), quick_runs: quick, thorough_runs: thorough }
 }
 
+const ALL_REAL: [&str; 16] = [
+    "terraswap_factory (real, from /repo)",
+    "terraswap_pair (real)",
+    "stableswap_3pool (real)",
+    "terraswap_router (real)",
+    "terraswap_token / cw20-base (real)",
+    "frontend_helper (real)",
+    "incentive_factory (real)",
+    "incentive (real)",
+    "vault_factory (real)",
+    "vault (real)",
+    "vault_router (real)",
+    "fee_collector (real)",
+    "fee_distributor (real)",
+    "whale_lair (real)",
+    "epoch-manager (real)",
+    "white-whale-std from /repo/packages (patched over the registry copy)",
+];
+
+fn all_plan(id: &'static str, level: &'static str, exhaustive: bool, rule: &'static str, sd: ScenDef, quick: u64, thorough: u64, want: Vec<&'static str>, assumptions: Vec<&'static str>) -> Plan {
+    let mut stubbed = STUBS.to_vec();
+    stubbed.push("Proxy (harness-only contract that forwards arbitrary messages / accepts the epoch hook)");
+    Plan {
+        property: id,
+        level,
+        rule,
+        parts: vec![PlanPart { scen: sd, quick_runs: quick, thorough_runs: thorough }],
+        real: ALL_REAL.to_vec(),
+        stubbed,
+        assumptions,
+        want_probes: want,
+        exhaustive,
+    }
+}
+
+
+
+const HUB_REAL: [&str; 10] = [
+    "fee_collector (real, from /repo)",
+    "fee_distributor (real)",
+    "whale_lair (real)",
+    "terraswap_factory + 2..3 terraswap_pair (real; constant product, optionally one stableswap)",
+    "terraswap_router with registered swap routes and a wasm admin (real)",
+    "vault_factory + 2 vaults, native and cw20 (real)",
+    "terraswap_token / cw20-base (real)",
+    "white-whale-std from /repo/packages (patched over the registry copy)",
+    "harness-only: flash-loan borrower contract that repays the quoted amount",
+    "harness-only: DAO / user / keeper accounts",
+];
+
+const HUB_RULE: &str = "seeded swarm runs of HUB: each run draws pair/vault fees, 2 or 3 pairs (optionally stableswap), routes, grace period 1..5, epoch duration >= 1 day, genesis offset, take-rate configuration, op weights, fault switch and a history (<=200 steps) of swaps, flash loans, direct inflows, bond/unbond/withdraw, NewEpoch on the clock alphabet (with F1/F2/F3 at k in 1..60), catch-up bursts, claims (single, permuted, duplicated), grace / take-rate updates, direct ForwardFees/CollectFees/AggregateFees calls and environment changes (pool paused, pair removed, route added/removed); a case counts as distinct non-trivial when a successful epoch creation or a paying claim leaves a not yet seen (epoch id, grace, total, expiring epoch) resp. (claimant, paid epochs, time) state";
+
+fn hub_plan(id: &'static str, quick: u64, thorough: u64, want: Vec<&'static str>) -> Plan {
+    Plan {
+        property: id,
+        level: "exploration",
+        rule: HUB_RULE,
+        parts: vec![PlanPart { scen: scen::<scen::hub::Hub>(), quick_runs: quick, thorough_runs: thorough }],
+        real: HUB_REAL.to_vec(),
+        stubbed: STUBS.to_vec(),
+        assumptions: vec![
+            "sampled histories, not all histories",
+            "cw-multi-test executes messages, sub-messages, replies and rollbacks like wasmd",
+            "the distribution asset and the epoch configuration are not changed mid-history (outside the properties' quantifier)",
+        ],
+        want_probes: want,
+        exhaustive: false,
+    }
+}
+
+
+const INCENT_REAL: [&str; 8] = [
+    "incentive (real, from /repo)",
+    "incentive_factory (real; creates the incentive, supplies fee / duration / flow limits)",
+    "frontend_helper (real)",
+    "terraswap_pair + terraswap_factory (real; the LP token of the cw20-LP runs is the pair's LP token)",
+    "terraswap_token / cw20-base (real; LP, reward and fee tokens)",
+    "white-whale-std from /repo/packages (patched over the registry copy)",
+    "fee collector: plain account (only receives the flow creation fee)",
+    "epoch source: the repo's own fee-distributor-mock (epoch counter advanced by its NewEpoch message)",
+];
+
+fn incent_plan(id: &'static str, quick: u64, thorough: u64, want: Vec<&'static str>) -> Plan {
+    let mut stubbed = STUBS.to_vec();
+    stubbed.push("fee distributor: the repo's fee-distributor-mock instead of the real fee_distributor (the incentive only reads CurrentEpoch.id)");
+    Plan {
+        property: id,
+        level: "exploration",
+        rule: "seeded swarm runs of INCENT: each run draws LP kind (pair LP cw20 / native denom), fee asset kind and amount, duration bounds, flow limits, magnitudes (1..2^101), 3-5 stakers + 2 flow creators + factory owner + stranger, op weights, fault switch, which defect-triggering input families are allowed, and a history (<=200 steps) of open/expand/close/withdraw/helper-deposit/open-flow/expand-flow/close-flow/claim/snapshot/epoch-advance; a case counts as distinct non-trivial when a successful state-changing step leaves a not yet seen (positions, flows, weights, claim cursors) state",
+        parts: vec![PlanPart { scen: scen::<scen::incent::Incent>(), quick_runs: quick, thorough_runs: thorough }],
+        real: INCENT_REAL.to_vec(),
+        stubbed,
+        assumptions: vec![
+            "sampled histories, not all histories",
+            "cw-multi-test executes messages, sub-messages, replies and rollbacks like wasmd",
+            "epochs advance only through the distributor mock's NewEpoch; one day of block time per epoch",
+        ],
+        want_probes: want,
+        exhaustive: false,
+    }
+}
+
+
+
 pub fn all_ids() -> Vec<&'static str> {
-    vec!["C01", "C02", "C03", "C04", "C05", "C06", "C07", "C14", "C15", "C17"]
+    vec!["C01", "C02", "C03", "C04", "C05", "C06", "C07", "C08", "C09", "C10", "C11", "C12", "C13", "C14", "C15", "C16", "C17", "C18", "C19", "C20"]
 }
 
 pub fn plan_for(id: &str) -> Option<Plan> {
@@ -127,7 +231,139 @@ pub fn plan_for(id: &str) -> Option<Plan> {
             want_probes: vec!["disabled_path_exercised", "enabled_path_succeeded"],
             exhaustive: true,
         }),
-        "C15" => Some(pool2_plan("C15", RULE, 6000, 300_000, vec!["swap_rejected_for_slippage", "deposit_rejected_for_slippage", "router_rejected_min_receive", "min_receive_receiver_had_balance"])),
+        "C15" => {
+            let mut p = pool2_plan("C15", RULE, 5000, 250_000, vec!["swap_rejected_for_slippage", "deposit_rejected_for_slippage", "router_rejected_min_receive", "min_receive_receiver_had_balance", "trio_swap_rejected_for_slippage"]);
+            p.parts.push(pool3_part(1500, 80_000));
+            p.real.push("stableswap_3pool (real)");
+            Some(p)
+        }
+        "C08" => Some(Plan {
+            property: "C08",
+            level: "exploration",
+            rule: "seeded swarm runs of BOND: real whale-lair with 3-5 users and 2 whitelisted denoms behind the real fee distributor + collector (or a stub / the repo's distributor mock); each run draws unbonding period, growth rate, magnitude, distributor regime (no epoch yet / epochs running / switching mid-run), op weights, fault switch and a history (<=200 steps) of Bond / Unbond / Withdraw (single, several per block, several per multi-message tx, series of up to 36 unbondings), invalid variants (non-whitelisted denom, cw20, mismatched / multiple / missing funds, zero, more than bonded, before maturity), NewEpoch / Claim / collector inflows, on the clock alphabet around the unbonding period; a case counts as distinct non-trivial when a successful step leaves a not yet seen (lair balances, bonds, number and sum of unbonding records per user) state",
+            parts: vec![PlanPart {
+                scen: scen::<scen::bond::Bond>(),
+                quick_runs: 4000,
+                thorough_runs: 200_000,
+            }],
+            real: vec![
+                "whale_lair (real, from /repo)",
+                "fee_distributor + fee_collector (real) with empty terraswap_factory, vault_factory and terraswap_router in 13 of 20 runs",
+                "white-whale-std from /repo/packages (patched over the registry copy)",
+            ],
+            stubbed: {
+                let mut v = STUBS.to_vec();
+                v.push("fee distributor in 6 of 20 runs: harness stub answering Config / CurrentEpoch / Claimable with settable values; in 1 of 20 runs the repo's fee-distributor-mock (refuses every bond)");
+                v
+            },
+            assumptions: vec![
+                "sampled histories, not all histories",
+                "cw-multi-test executes messages, sub-messages, queries and rollbacks like wasmd; zero-amount bank transfers are refused as on chain",
+                "no plain bank transfers to the lair (the statement is an equality)",
+                "the unbonding period is not changed after instantiation",
+            ],
+            want_probes: vec![
+                "same_timestamp_unbond_accepted",
+                "withdraw_paid",
+                "withdraw_exactly_at_maturity",
+                "withdraw_refused_1ns_before_maturity",
+                "more_than_one_page_of_records",
+                "multi_message_tx_ok",
+                "multi_message_tx_reverted",
+                "bond_ok_epochs_running",
+                "bond_ok_no_epoch",
+                "refused_unclaimed_rewards",
+                "refused_new_epoch_not_created_yet",
+                "refused_asset_mismatch",
+                "claimed_rewards",
+                "final_withdraw_all",
+            ],
+            exhaustive: false,
+        }),
+        "C09" => Some(hub_plan("C09", 6000, 200_000, vec!["rollover_of_nonzero_remainder", "grace_increased_mid_history", "claim_paid_several_epochs", "run_reached_grace_plus_2_epochs", "expired_epoch_selected_again_after_grace_increase"])),
+        "C10" => Some(hub_plan("C10", 6000, 200_000, vec!["take_rate_paid_and_recorded", "take_rate_inactive", "asset_swapped_through_route", "asset_left_no_route", "pair_pending_below_threshold_stays_owed", "vault_pending_collected", "forward_fees_refused", "query_fault_absorbed_by_fallback"])),
+        "C20" => Some(Plan {
+            property: "C20",
+            level: "exploration",
+            rule: "HUB part (fee distributor): NewEpoch by anyone on the clock alphabet against the exact model, see C09; EPOCH part: real epoch-manager + 0..3 hook receivers, each run draws duration (>= 1 day), genesis offset, start id, registered hooks, op weights, fault switch and a history (<=200 steps) of CreateEpoch (single, repeated in one block, several in one tx) / AddHook / RemoveHook / UpdateConfig / hook-fails-or-recovers on the clock alphabet (before genesis, at genesis, boundary -1ns/0/+1ns, k durations late, same block); a case counts as distinct non-trivial when a step leaves a not yet seen (epoch id, start, duration, hooks, failing hooks, owner) state",
+            // the fee-distributor half of C20 is added here as a second PlanPart
+            parts: vec![scen::epoch::epoch_part(), scen::hub::hub_part_c20()],
+            real: vec!["fee_distributor + fee_collector + whale_lair + factories + router + vaults (real, HUB part)", "epoch-manager (real, from /repo)", "cw-controllers Hooks/Admin (real)", "white-whale-std from /repo/packages (patched over the registry copy)"],
+            stubbed: {
+                let mut v = STUBS.to_vec();
+                v.push("hook receivers: harness contract HookSink (logs or fails on demand)");
+                v
+            },
+            assumptions: vec![
+                "sampled histories, not all histories",
+                "cw-multi-test executes messages, sub-messages and rollbacks like wasmd; a contract panic is the on-chain abort",
+            ],
+            want_probes: vec![
+                "attempt_before_genesis",
+                "attempt_exactly_at_genesis",
+                "attempt_boundary_minus_1ns",
+                "attempt_boundary_exact",
+                "attempt_boundary_plus_1ns",
+                "attempt_two_or_more_periods_late",
+                "consecutive_catch_up_creations",
+                "repeat_after_catch_up_rejected",
+                "failing_hook_reverted_creation",
+                "duration_changed_mid_history",
+                "creation_with_hooks",
+                "final_catch_up_done",
+                "attempt_1ns_before_boundary",
+                "late_catch_up_consecutive_creations",
+            ],
+            exhaustive: false,
+        }),
+        "C16" => Some(all_plan(
+            "C16",
+            "fault_enumeration",
+            true,
+            "complete matrix {42 privileged / internal-callback ExecuteMsg variants of the 15 hub contracts (table VARIANTS in all_auth.rs, taken from the property text)} x {before, after an ownership transfer of the governing contract} x {owner, previous owner (before the transfer: the future owner), child's factory, sibling contract via Proxy, plain user, wasm admin, designated contract / the contract itself through the flow that makes it call, hub deployer} = 672 combinations of which 504 are cells that exist (a contract without a factory has no 'factory' caller, an owner-only variant has no designated contract, ...: fn applicable in all_auth.rs); run index i executes cell i mod 504 with a randomised payload that is valid by construction, at a random point of background traffic (swaps, deposits, bonding, epochs, flows), plus 4-28 randomly chosen further cells and random further ownership transfers; a case counts as distinct non-trivial when an authorised privileged call succeeded and left a not yet seen full-state fingerprint",
+            scen::<scen::all_auth::AllAuth>(),
+            504 * 10,
+            504 * 150,
+            vec!["authorised_accepted", "authorised_accepted_after_transfer", "previous_owner_refused", "unauthorised_refused_for_auth", "designated_flow_ok", "ownership_transferred", "ownership_transferred_to_contract"],
+            vec![
+                "the matrix (variants x phases x roles) is enumerated completely; payloads, traffic context and the position of the cell in the history are sampled",
+                "a cell whose precondition cannot be arranged in the state of its run would be counted under cell_not_arrangeable/* (none in the recorded runs); combinations that do not exist (role 'factory' for a contract without factory, ...) are excluded by fn applicable",
+                "cw-multi-test executes messages, sub-messages, replies, admin checks and rollbacks like wasmd",
+            ],
+        )),
+        "C18" => Some(all_plan(
+            "C18",
+            "exploration",
+            false,
+            "seeded runs of ALL_CFG on the fully wired hub: histories (<=200 steps) of factory create / direct instantiate / factory-mediated update / direct update (after the factory handed the child over) of pairs, trios and vaults (incl. a vault over a factory/... denom), instantiate / update of fee distributors, epoch managers, whale lairs and the fee collector, with every bounded parameter drawn from {bound-1e-18, bound, bound+1e-18, 0, max, fee totals of exactly 1-1e-18 / 1 / 1+1e-18, amp x10 / x10+1 / /10 / /10-1 ramps}; after every step the Config (and Pair) answers of every tracked instance are compared with the bounds of the property text and a rejected update must leave the full-state fingerprint unchanged; a case counts as distinct non-trivial when an accepted write leaves a not yet seen (instance, written values) state",
+            scen::<scen::all_cfg::AllCfg>(),
+            2500,
+            50_000,
+            vec!["pair_fees_written", "vault_fees_written", "trio_amp_ramp_accepted", "distributor_updated", "update_rejected", "pair_instantiated_directly", "vault_instantiated_directly", "distributor_instantiated", "lair_instantiated", "epoch_manager_instantiated"],
+            vec![
+                "sampled histories, not all histories",
+                "default cargo features: a vault over a factory/... denom cannot be instantiated at all without the token-factory feature (its cw20 LP symbol 'uLP-factory/' is rejected), so the burn-fee ban on such vaults is only checked vacuously (probe factory_denom_vault_created)",
+                "cw-multi-test executes messages, sub-messages, replies and rollbacks like wasmd",
+            ],
+        )),
+        "C19" => Some(all_plan(
+            "C19",
+            "exploration",
+            false,
+            "seeded runs of ALL_REG on the fully wired hub with initially empty registries: histories (<=200 steps) of create / remove / re-create of pairs, trios, vaults and incentives over a universe of 3-4 native + 3-4 cw20 assets with the assets given in random order (sub-call faults injected into creations in a third of the runs), lookups of every registered and unregistered asset set in every permutation, walks of the Pairs / Trios / Vaults / Incentives listings with every page size 1..31 (+ default, + 1000) and from every cursor, AddSwapRoutes / RemoveSwapRoutes with registered and unregistered hops, execution of ad-hoc and stored routes also after their pairs were removed; model registry keyed by asset set; a case counts as distinct non-trivial when a successful create / remove / route update leaves a not yet seen registry content",
+            scen::<scen::all_reg::AllReg>(),
+            2000,
+            25_000,
+            vec!["pair_recreated_after_removal", "pair_removed", "trio_removed", "vault_removed", "duplicate_pair_refused", "duplicate_trio_refused", "duplicate_vault_refused", "duplicate_incentive_refused", "pagination_walk_completed", "pagination_walk_over_30_entries", "route_stored", "route_with_unregistered_hop_refused", "swap_through_removed_pair_refused", "route_executed_while_removed_pairs_exist"],
+            vec![
+                "sampled histories, not all histories; page sizes 1..31 and all cursors of the reached registries are enumerated in every Walk step",
+                "asset names are realistic (denoms uwhale/uusdc/uatom/uosmo, cw20 contract addresses): key collisions of concatenated asset bytes without separator need crafted names and are not generated",
+                "cw-multi-test executes messages, sub-messages, replies and rollbacks like wasmd",
+            ],
+        )),
+        "C11" => Some(incent_plan("C11", 5000, 250_000, vec!["helper_deposit_completed", "position_for_receiver", "withdraw_paid_closed_positions", "duration_min", "duration_max", "helper_chain_fault_reverted", "flow_in_lp_asset"])),
+        "C12" => Some(incent_plan("C12", 5000, 250_000, vec!["flow_native_fee_native_same", "flow_native_fee_native_diff", "flow_cw20_fee_native_diff", "flow_native_fee_cw20_diff", "flow_cw20_fee_cw20_same", "flow_cw20_fee_cw20_diff", "stranger_close_refused", "flow_closed_by_creator", "flow_closed_by_owner", "flow_expanded_by_non_creator"])),
+        "C13" => Some(incent_plan("C13", 5000, 250_000, vec!["double_claim_in_epoch", "claim_paid_quote", "claim_over_several_epochs", "position_change_before_snapshot", "position_change_after_snapshot", "epoch_ge_20"])),
         _ => None,
     }
 }
